@@ -130,7 +130,9 @@ type FailAt struct {
 	At        int
 	WithData  bool
 	Err       error
+	Once      bool // the fault is transient: after it was returned once, reading continues normally
 	pos       int
+	fired     bool
 	Delivered bool // the error was actually returned to the caller
 }
 
@@ -145,14 +147,24 @@ func (f *FailAt) Read(p []byte) (int, error) {
 	if len(p) == 0 {
 		return 0, nil
 	}
+	if f.Once && f.fired {
+		if f.pos >= len(f.Data) {
+			return 0, io.EOF
+		}
+		n := copy(p, f.Data[f.pos:])
+		f.pos += n
+		return n, nil
+	}
 	if f.pos >= f.At {
 		f.Delivered = true
+		f.fired = true
 		return 0, f.err()
 	}
 	n := copy(p, f.Data[f.pos:f.At])
 	f.pos += n
 	if f.WithData && f.pos >= f.At {
 		f.Delivered = true
+		f.fired = true
 		return n, f.err()
 	}
 	return n, nil
@@ -169,6 +181,8 @@ func Truncated(data []byte, n int) []byte {
 // FailWriter fails with ErrInjected at write call number AtCall (0-based) or,
 // if AtByte >= 0, once AtByte bytes have been accepted (short write + error).
 type FailWriter struct {
+	Once      bool // transient fault: only one call fails
+	fired     bool
 	AtCall    int // -1: unused
 	AtByte    int // -1: unused
 	Calls     int
@@ -181,11 +195,17 @@ type FailWriter struct {
 func (w *FailWriter) Write(p []byte) (int, error) {
 	call := w.Calls
 	w.Calls++
+	if w.Once && w.fired {
+		w.Bytes += len(p)
+		return len(p), nil
+	}
 	if w.AtCall >= 0 && call >= w.AtCall {
 		w.Delivered = true
+		w.fired = true
 		return 0, ErrInjected
 	}
 	if w.AtByte >= 0 && w.Bytes+len(p) > w.AtByte {
+		w.fired = true
 		n := w.AtByte - w.Bytes
 		if n < 0 {
 			n = 0
